@@ -251,6 +251,8 @@ class ClassInfo:
                 for t in st.targets:
                     if isinstance(t, ast.Name):
                         self.class_assigns[t.id] = st.value
+        for fn_ in self.methods.values():
+            fn_._class_assigns = self.class_assigns      # lets helpers resolve `self.CONSTANT` from a method node
 
     @property
     def qual(self):
